@@ -350,3 +350,60 @@ def r16_8_nth_weekday_total(ctx: Ctx) -> RuleResult:
     else:
         rr.ok({"fn": f.qual, "calls analysed": A.calls_seen})
     return rr
+
+
+# ------------------------------------------------------------------------------------------- R16.9 one year beyond each end
+
+
+@rule("C16")
+def r16_9_calculators_answer_one_year_beyond(ctx: Ctx) -> RuleResult:
+    """The week-year rules ask a calendar's calculator about the calendar year equal to a week-year, and a week-year can be one less
+    than the first calendar year or one more than the last ("YearMonthDayCalculator.GetStartOfYearInDays already handles min/max
+    -/+ 1", says the rule's own comment).  Every explicit argument-range check on the year along `_get_start_of_year_in_days`,
+    `_calculate_start_of_year_days` and `_get_days_in_year` of each calculator must therefore admit [min_year - 1, max_year + 1]
+    (bounds folded per calculator instance); otherwise the first days of the calendar, which belong to week-year min_year - 1
+    under most rules, make get_week_year / get_week_of_week_year raise."""
+    from ..calendars import calculator_instances
+
+    rr = RuleResult("R16.9", "year-range checks on the year-start / year-length paths of every calculator admit [min_year - 1, max_year + 1], as the week-year rules assume", min_instances=4)
+    M = ctx.M
+    done = set()
+    for ci in calculator_instances(ctx):
+        if ci.cls in done:
+            continue
+        done.add(ci.cls)
+        cls = M.cls(ci.cls)
+        mn = next((v for k, v in ci.obj.fields.items() if k.endswith("__min_year")), None)
+        mx = next((v for k, v in ci.obj.fields.items() if k.endswith("__max_year")), None)
+        if mn is None or mx is None:
+            raise AnalysisError(f"{ci.cls}: min/max year of the instance unknown")
+        lo_need, hi_need = int(mn.lo) - 1, int(mx.hi) + 1
+        for entry in ("_get_start_of_year_in_days", "_calculate_start_of_year_days", "_get_days_in_year"):
+            f0 = M.find_method(cls, entry)
+            if f0 is None or isinstance(f0.node, ast.Lambda):
+                continue
+            work, seen = [f0], set()
+            while work:
+                f = work.pop()
+                if id(f) in seen or isinstance(f.node, ast.Lambda):
+                    continue
+                seen.add(id(f))
+                ynames = {p.arg for p in f.value_params if p.arg == "year"}
+                if not ynames:
+                    continue
+                for n in own_nodes(f.node):
+                    if isinstance(n, ast.Call) and unparse(n.func).endswith("_check_argument_range") and len(n.args) >= 4 and isinstance(n.args[1], ast.Name) and n.args[1].id in ynames:
+                        rr.inst()
+                        lo, hi = M.fold(n.args[2], f.cls, f.mod), M.fold(n.args[3], f.cls, f.mod)
+                        if not isinstance(lo, int) or not isinstance(hi, int):
+                            rr.fail(f.qual, f"`{unparse(n)[:80]}`: bounds not foldable (not decided)", ctx.loc(f, n))
+                        elif lo <= lo_need and hi >= hi_need:
+                            rr.ok({"calculator": ci.cls, "check": f"{f.name}: [{lo}, {hi}]", "needed": f"[{lo_need}, {hi_need}]"})
+                        else:
+                            rr.fail(f.qual, f"`{unparse(n)[:80]}` accepts years [{lo}, {hi}] on the `{entry}` path, but the week-year rules (and the day-number bounds) ask about [{lo_need}, {hi_need}]: dates in the first / last days of the {ci.cls.replace('_', ' ').strip()} calendar make the week rules raise ValueError", ctx.loc(f, n))
+                    # same-object callees that receive the year
+                    if isinstance(n, ast.Call) and isinstance(n.func, ast.Attribute) and isinstance(n.func.value, ast.Name) and n.func.value.id in ("self", "cls") and any(isinstance(a, ast.Name) and a.id in ynames for a in n.args) and len(seen) < 8:
+                        k = M.find_method(cls, mangle(f.cls.name if f.cls else cls.name, n.func.attr)) or M.find_method(cls, n.func.attr)
+                        if k is not None:
+                            work.append(k)
+    return rr
